@@ -50,6 +50,17 @@ def undefined_at(spec, kw):
     return bool(k) and models.kw_number(kw, salt=99) % k == 0
 
 
+def dtype_variant(spec, kw, j, val):
+    """spec['mixed_dtype']: a scalar output is a numpy float32 at about half
+    of the settings (the stored integers are exact there) and a float64 that
+    needs its 53 bits at the others."""
+    if not spec.get("mixed_dtype") or spec.get("str_var") == j:
+        return val
+    if models.kw_number(kw, salt=300 + j) % 2 == 0:
+        return np.float32(val)
+    return np.float64(val) + 2.0 ** -20
+
+
 def compute(spec, kw):
     import xarray as xr
     kw = {k: v for k, v in kw.items()}
@@ -58,6 +69,8 @@ def compute(spec, kw):
         shape = tuple(spec["sizes"][d] for d in dims)
         val = (var_value(kw, j, shape) + spec.get("epoch", 0)) * \
             spec.get("scale", 1)
+        if not shape:
+            val = dtype_variant(spec, kw, j, val)
         if undefined_at(spec, kw):
             val = val * float("nan")
         if spec.get("str_var") == j and not shape:
@@ -184,6 +197,9 @@ def check_dataset(ds, *, spec, fn_args, coords, requested, fn_kwargs_extra,
                 shape = tuple(spec["sizes"][d] for d in dims)
                 want = (np.asarray(var_value(full, j, shape), dtype=float)
                         + spec.get("epoch", 0)) * spec.get("scale", 1)
+                if not shape:
+                    want = np.asarray(dtype_variant(spec, full, j,
+                                                    float(want)), dtype=float)
                 if spec.get("str_var") == j and not shape:
                     want = np.asarray("txt%d" % int(want))
                     ok = got.shape == () and str(got) == str(want)
@@ -272,6 +288,7 @@ def check_dataframe(df, *, spec, fn_args, settings, fn_kwargs_extra,
         for j, name in enumerate(names):
             want = (var_value(full, j, ()) + spec.get("epoch", 0)) * \
                 spec.get("scale", 1)
+            want = float(dtype_variant(spec, full, j, want))
             got = row[name]
             if spec.get("str_var") == j:
                 want = "txt%d" % int(want)
